@@ -1,4 +1,5 @@
 import BfeVerif.C41.Proofs
+import BfeVerif.C41.Select
 /-!
   C41 — TLS negotiation picks mutually supported parameters and resists downgrade.
   Property theorems only.  All are about `readClientHello` of `Model.lean`, i.e. about the decisions taken
@@ -273,6 +274,208 @@ theorem C41_resume_keeps_version {cfg : Config} {rule : Option Rule} {h : Hello}
     exact ⟨st, rfl, c.1, hvs.symm, t.2.2.1.symm⟩
   | full _ _ hp => rw [hp] at hres; cases hres
   | fullNoExt _ _ hp => rw [hp] at hres; cases hres
+
+/-! ## Which rule, which certificate, which client-certificate policy (Select.lean) -/
+
+theorem C41_fact_sni_normalised : sniRuleLookupNormalised = true := by decide
+
+theorem lookup_of_mem_nodup {α : Type} (key : String → String) (l : List (String × α)) (k : String) (v : α)
+    (hnd : (l.map fun p => key p.1).Nodup) (hm : (k, v) ∈ l) :
+    lookup (l.map fun p => (key p.1, p.2)) (key k) = some v := by
+  induction l with
+  | nil => cases hm
+  | cons a rest ih =>
+    simp only [List.map_cons, List.nodup_cons] at hnd
+    unfold lookup
+    simp only [List.map_cons, List.find?_cons]
+    rcases List.mem_cons.mp hm with h | h
+    · subst h; simp
+    · have hne : (key a.1 == key k) = false := by
+        apply beq_false_of_ne
+        intro he
+        exact hnd.1 (he ▸ List.mem_map.mpr ⟨(k, v), h, rfl⟩)
+      simp only [hne]
+      exact ih hnd.2 h
+
+theorem lookup_none_of_forall {α : Type} (l : List (String × α)) (k : String) (h : ∀ p ∈ l, p.1 ≠ k) :
+    lookup l k = none := by
+  unfold lookup
+  rw [List.find?_eq_none.mpr]
+  · rfl
+  · intro p hp; simpa using h p hp
+
+/-- **The rule applied is the one configured for the connection.**  (1) A connection arriving on a configured VIP gets
+    that VIP's rule whatever SNI it presents.  (2) Otherwise it gets the rule whose SniConf lists the presented server
+    name — compared case-insensitively and without trailing dots, so no spelling of a configured host name escapes
+    its rule (this needs the `sniRuleLookupNormalised` fact, i.e. the repaired lookup).  (3) Otherwise the default
+    rule.  Names are unique after lower-casing (`checkSniConf` refuses duplicates). -/
+theorem C41_rule_lookup {α : Type} (t : RuleTable α) (vip : Option String) (sni : String)
+    (hnd : (t.sni.map fun p => lowerAscii p.1).Nodup) :
+    (∀ v r, vip = some v → lookup t.vip v = some r → getRule t vip sni = r) ∧
+    (vip.bind (lookup t.vip) = none → ∀ name r, (name, r) ∈ t.sni → lowerAscii name = normName sni →
+      getRule t vip sni = r) ∧
+    (vip.bind (lookup t.vip) = none → (∀ p ∈ t.sni, lowerAscii p.1 ≠ normName sni) → getRule t vip sni = t.dflt) := by
+  have hk : ∀ n, sniLoadKey n = lowerAscii n := fun n => by unfold sniLoadKey; rw [C41_fact_sni_normalised]; rfl
+  have hq : sniLookupKey sni = normName sni := by unfold sniLookupKey; rw [C41_fact_sni_normalised]; rfl
+  have hmap : (t.sni.map fun p => (sniLoadKey p.1, p.2)) = t.sni.map fun p => (lowerAscii p.1, p.2) := by
+    apply List.map_congr_left; intro p _; rw [hk]
+  refine ⟨?_, ?_, ?_⟩
+  · intro v r hv hl
+    unfold getRule; subst hv
+    simp only [Option.bind_some, hl]
+  · intro hnone name r hm he
+    unfold getRule
+    rw [hnone, hmap, hq, ← he]
+    simp only
+    rw [lookup_of_mem_nodup lowerAscii t.sni name r hnd hm]
+  · intro hnone hall
+    unfold getRule
+    rw [hnone, hmap, hq]
+    simp only
+    rw [lookup_none_of_forall]
+    intro p hp
+    obtain ⟨q, hq', rfl⟩ := List.mem_map.mp hp
+    exact hall q hq'
+
+/-- Two spellings of one host name get the same rule. -/
+theorem C41_rule_case_insensitive {α : Type} (t : RuleTable α) (vip : Option String) (a b : String)
+    (h : normName a = normName b) : getRule t vip a = getRule t vip b := by
+  unfold getRule sniLookupKey
+  rw [C41_fact_sni_normalised]
+  simp only [if_true, h]
+
+/-- **The certificate matches the SNI by exact name, then by wildcard.**  VIP's certificate first; otherwise, for a
+    non-empty server name (lower-cased, trailing dots removed): the certificate that carries the name exactly if there
+    is one — even if wildcard patterns match too —, else a certificate one of whose wildcard patterns matches
+    (whichever the map iteration meets first), else the default certificate; the default also for an empty name. -/
+theorem C41_cert_lookup (t : CertTable) (vip : Option String) (sni : String) :
+    (∀ v c, vip = some v → lookup t.vip v = some c → certGet t vip sni = c) ∧
+    (vip.bind (lookup t.vip) = none → sni.isEmpty = false → ∀ c, lookup t.normal (normName sni) = some c →
+      certGet t vip sni = c) ∧
+    (vip.bind (lookup t.vip) = none → sni.isEmpty = false → lookup t.normal (normName sni) = none →
+      (∃ pat, (pat, certGet t vip sni) ∈ t.wildcard ∧ matchHostnames pat (normName sni) = true) ∨
+      ((∀ p ∈ t.wildcard, matchHostnames p.1 (normName sni) = false) ∧ certGet t vip sni = t.dflt)) ∧
+    (vip.bind (lookup t.vip) = none → sni.isEmpty = true → certGet t vip sni = t.dflt) := by
+  refine ⟨?_, ?_, ?_, ?_⟩
+  · intro v c hv hl
+    unfold certGet; subst hv
+    simp only [Option.bind_some, hl]
+  · intro hnone hne c hl
+    unfold certGet nameCertGet
+    rw [hnone]
+    simp only [hne, Bool.false_eq_true, if_false, hl]
+  · intro hnone hne hl
+    unfold certGet nameCertGet
+    rw [hnone]
+    simp only [hne, Bool.false_eq_true, if_false, hl]
+    cases hf : t.wildcard.find? (fun p => matchHostnames p.1 (normName sni)) with
+    | none =>
+      right
+      refine ⟨?_, by simp⟩
+      intro p hp
+      have := List.find?_eq_none.mp hf p hp
+      simpa using this
+    | some p =>
+      left
+      refine ⟨p.1, ?_, ?_⟩
+      · simpa using List.mem_of_find?_eq_some hf
+      · simpa using List.find?_some hf
+  · intro hnone he
+    unfold certGet
+    rw [hnone]
+    simp only [he, if_true]
+
+/-- **Client certificates.**  If the client-certificate part of a full handshake succeeds under the connection's
+    policy (the rule's `ClientAuth` forces RequireAndVerifyClientCert, `clientAuthOf`), then: a policy that requires a
+    certificate got one; a policy that verifies got a chain that verifies against the connection's CA pool for client
+    authentication and whose leaf lists the ClientAuth usage; and any accepted certificate parsed, is not revoked,
+    has a usable key, and proved possession of it (CertificateVerify). -/
+theorem C41_client_auth {policy : Nat} {cc r : Option ClientCert} (h : clientAuthStep policy cc = .ok r) :
+    ((policy = requireAnyClientCert ∨ policy = requireAndVerifyClientCert) → ∃ c, r = some c) ∧
+    (∀ c, r = some c → verifyClientCertIfGiven ≤ policy → c.chainOk = true ∧ c.ekuListed = true) ∧
+    (∀ c, r = some c → cc = some c ∧ c.parses = true ∧ c.revoked = false ∧ c.keyOk = true ∧ c.sigOk = true) ∧
+    (policy < requestClientCert → r = none) := by
+  unfold clientAuthStep at h
+  split at h
+  · rename_i hp
+    cases h
+    refine ⟨?_, (by intro c hc; cases hc), (by intro c hc; cases hc), fun _ => rfl⟩
+    rintro (h1 | h1) <;> (rw [h1] at hp; exact absurd hp (by decide))
+  · rename_i hp
+    cases cc with
+    | none =>
+      simp only at h
+      split at h
+      · cases h
+      · rename_i hq
+        cases h
+        refine ⟨?_, (by intro c hc; cases hc), (by intro c hc; cases hc), fun hlt => absurd hlt hp⟩
+        rintro (h1 | h1) <;> (exfalso; apply hq; simp [h1])
+    | some c =>
+      simp only at h
+      split at h; · cases h
+      rename_i h1
+      split at h; · cases h
+      rename_i h2
+      split at h; · cases h
+      rename_i h3
+      split at h; · cases h
+      rename_i h4
+      split at h; · cases h
+      rename_i h5
+      split at h; · cases h
+      rename_i h6
+      cases h
+      refine ⟨fun _ => ⟨c, rfl⟩, ?_, ?_, fun hlt => absurd hlt hp⟩
+      · intro c' hc hpol
+        cases hc
+        have hd : decide (policy ≥ verifyClientCertIfGiven) = true := by simpa using hpol
+        constructor
+        · cases hco : c.chainOk with
+          | true => rfl
+          | false => exact absurd (by simp [hd, hco]) h3
+        · cases hco : c.ekuListed with
+          | true => rfl
+          | false => exact absurd (by simp [hd, hco]) h4
+      · intro c' hc
+        cases hc
+        refine ⟨rfl, ?_, ?_, ?_, ?_⟩
+        · simpa using h1
+        · simpa using h2
+        · simpa using h5
+        · simpa using h6
+
+/-- The CA pool is the rule's when the rule demands client certificates and names a pool, else the Config's. -/
+theorem C41_client_ca_pool (cfgPool rulePool : Option String) (p : String) :
+    clientCAPool cfgPool (some p) true = some p ∧ clientCAPool cfgPool rulePool false = cfgPool := ⟨rfl, rfl⟩
+
+/-- **Curves.**  Every curve an operator can configure (bfe_conf.CurvesMap) is one the ECDHE key agreement implements,
+    and with such preferences the curve the key exchange picks is implemented, preferred by the server and offered by
+    the client.  (A raw `Config.CurvePreferences` naming another curve id — impossible through bfe's configuration — is
+    counted as supported by readClientHello and then fails closed in generateServerKeyExchange.) -/
+theorem C41_curves_configurable_implemented : ∀ c ∈ configurableCurves, c ∈ implementedCurves := by decide
+
+theorem C41_key_exchange_curve (prefs clientCurves : List Nat) (hp : ∀ c ∈ prefs, c ∈ implementedCurves)
+    (h : keyExchangeCurve prefs clientCurves ≠ 0) :
+    keyExchangeCurve prefs clientCurves ∈ implementedCurves ∧ keyExchangeCurve prefs clientCurves ∈ prefs ∧
+    keyExchangeCurve prefs clientCurves ∈ clientCurves := by
+  cases hf : prefs.find? (fun c => clientCurves.contains c) with
+  | none =>
+    have : keyExchangeCurve prefs clientCurves = 0 := by unfold keyExchangeCurve; rw [hf]
+    exact absurd this h
+  | some c =>
+    have he : keyExchangeCurve prefs clientCurves = c := by unfold keyExchangeCurve; rw [hf]
+    rw [he]
+    have hm := List.mem_of_find?_eq_some hf
+    have hc := List.find?_some hf
+    exact ⟨hp c hm, hm, by simpa using hc⟩
+
+example : getRule (α := String) { vip := [], sni := [("a.example.com", "P1")], dflt := "default" } none "A.Example.COM." = "P1" := by decide
+example : certGet { vip := [], normal := [("x.b.example.com", "C1")], wildcard := [("*.b.example.com", "C2")], dflt := "D" } none "X.B.example.com" = "C1" := by decide
+-- (wildcard matching uses `String.splitOn`, which the kernel does not unfold: it is exercised by the `cl` stream)
+example : clientAuthStep 4 none = .error 42 := rfl
+example : clientAuthStep 4 (some ⟨true, false, true, true, true, true⟩) = .ok (some ⟨true, false, true, true, true, true⟩) := rfl
+example : clientAuthStep 3 (some ⟨true, false, false, true, true, true⟩) = .error 42 := rfl
 
 /-! Non-vacuity: concrete accepted hellos on each path (run by the kernel). -/
 example : readClientHello wCfg none wHello wNoLookups =
